@@ -262,3 +262,39 @@ pub fn adversarial_headers(rng: &mut Rng, spec: &Spec) -> Vec<(String, Vec<u8>)>
     out.push(("random-bytes".into(), rng.bytes(n)));
     out
 }
+
+/// Mutations that keep every size field and the alignment of the stream intact (ids only): used where the size
+/// limit cannot be configured (async adapter) and a misaligned parse could legitimately allocate gigabytes.
+pub fn mutate_ids_only(rng: &mut Rng, spec: &Spec, bytes: &[u8], lay: &[Lay], n: usize) -> (Vec<u8>, Vec<&'static str>) {
+    let mut b = bytes.to_vec();
+    let mut kinds = Vec::new();
+    if lay.is_empty() {
+        return (b, kinds);
+    }
+    for _ in 0..n {
+        let l = rng.pick(lay);
+        if l.off + l.id_len > b.len() {
+            continue;
+        }
+        if rng.chance(1, 2) {
+            // another known id of the same byte length
+            let same: Vec<u64> = spec.elems.iter().map(|e| e.id).filter(|i| id_bytes(*i).len() == l.id_len).collect();
+            if same.is_empty() {
+                continue;
+            }
+            let nid = *rng.pick(&same);
+            b[l.off..l.off + l.id_len].copy_from_slice(&id_bytes(nid));
+            kinds.push("id-to-known-same-length");
+        } else {
+            let nid = loop {
+                let x = crate::gen::random_id(rng, l.id_len);
+                if spec.get(x).is_none() {
+                    break x;
+                }
+            };
+            b[l.off..l.off + l.id_len].copy_from_slice(&id_bytes(nid));
+            kinds.push("id-to-unknown");
+        }
+    }
+    (b, kinds)
+}
